@@ -1485,3 +1485,39 @@ Proof.
       split. { intros h0 Hh. rewrite H1 in Hh. inversion Hh; subst h0. rewrite (E3 h). rewrite D3; auto. apply (FR HEADER h); auto. left; auto. rewrite D2; auto. }
       split. lia. congruence.
 Qed.
+
+Lemma kstep_destroy : forall rc s C0, SGood s C0 -> kstep_ok rc s C0 Destroy [].
+Proof.
+  intros rc s C0 G. destruct rc as [[e1 e2] e3]. unfold kstep_ok, k_step, a_step. simpl. rewrite (sg_alive _ _ G). simpl.
+  unfold k_destroy. simpl kx_removed. cbv iota.
+  assert (L0 : Linked s 0 HEADER C0). { generalize (sg_linked _ _ G 0 (Nat.le_0_l _)). rewrite chain_level0. auto. }
+  rewrite (node_next_ok s C0 HEADER C0 G L0) by auto. cbn [bind].
+  destruct (sg_hdr _ _ G) as [h [H1 [H2 H3]]].
+  assert (NDC : NoDup C0) by (eapply sgood_nodup; eauto).
+  assert (HNC : ~ In HEADER C0). { intro Q. destruct (sg_node _ _ G HEADER Q) as [_ [_ [_ [_ [_ [_ Q2]]]]]]. congruence. }
+  assert (RS : Rest s (sn_subs h) C0).
+  { constructor.
+    - exists h. auto.
+    - constructor; auto.
+    - intros x Hx. destruct (sg_node _ _ G x Hx) as [n [k [N1 [N2 [N3 _]]]]].
+      destruct (own_arr _ _ (sg_own _ _ G) x n) as [a [A1 _]]. right; auto. auto. exists n, k, a. auto.
+    - apply (own_inj _ _ (sg_own _ _ G)).
+    - destruct C0; auto. cbn [Linked] in L0. apply L0. }
+  destruct (destroy_loop_ok C0 (S (length (k_nodes s))) s (sn_subs h)) as [s1 [D1 [[h1 [D2 [D3 D4]]] [D5 [D6 D7]]]]]; auto.
+  { generalize (sgood_len _ _ G). lia. }
+  rewrite D1. cbn [bind]. rewrite H1 in D4. inversion D4; subst h1.
+  (* finally the header *)
+  destruct (own_arr _ _ (sg_own _ _ G) HEADER h) as [a [A1 _]]. left; auto. auto.
+  unfold k_node_destroy. rewrite D2. cbn [bind]. simpl kx_hdr_notify. rewrite Nat.eqb_refl. cbn [andb bind]. simpl kx_removed. cbv iota.
+  unfold free_arr. rewrite (D5 h H1), A1. cbn [bind]. unfold free_node. unfold dnode at 1. cbn [k_nodes set_arrs]. fold (dnode s1 HEADER). rewrite D2. cbn [bind].
+  eexists _, [], ONone, ONone, _. split; [reflexivity|]. split; [|split; [reflexivity|right; reflexivity]].
+  f_equal. f_equal.
+  - unfold kabs. simpl. f_equal.
+    + rewrite upd_length. lia.
+    + unfold hsubs, dnode. simpl. assert (LT : HEADER < length (k_nodes s1)) by (eapply dnode_lt; eauto).
+      unfold HEADER in *. destruct (k_nodes s1); simpl in *. lia. reflexivity.
+    + auto.
+  - rewrite app_nil_r. rewrite live_kabs. simpl. rewrite flat_map_map. apply flat_map_ext'. intros x Hx.
+    destruct (sg_node _ _ G x Hx) as [n [k [N1 [N2 _]]]]. unfold del_notifs_k. rewrite N1, N2.
+    rewrite (sent_node _ _ _ _ N1 N2). unfold r_notify. simpl. unfold hsubs. rewrite H1. reflexivity.
+Qed.
